@@ -16,6 +16,12 @@ CHECKS = {
             "Part 2 is bounded-exhaustive enumeration of finite choices driven by the engine; uniqueness of labels for whole trees follows from part 1 by induction (paper argument).", "§3 C03"),
     "C17": ("The real f() of every synthetic objective is executed on a symbolic point of its documented domain (DoubleSine also with symbolic rho1, rho2, tmax; perturbed variants with a symbolic offset; Rastrigin in dimension 1..4); sin/cos/exp/log/pow are uninterpreted functions with bound/monotonicity/landmark axioms, sqrt/floor/abs exact; z3 proves f(x) <= fmax on every path, absence of domain errors and divisions by zero, purity (two evaluations give equal values, no random draw, no attribute write); existential clauses are witnesses evaluated on the real code; wrong dimensions enumerated (len 0..4).",
             "libm's conformance to the axioms is trusted; rounding inside f is not modelled; a solver counterexample that is spurious w.r.t. the abstraction is only reported after a concrete witness was found near it (otherwise exit 3).", "§3 C17"),
+    "C04": ("Run-level symbolic exploration with a ledger kept by the harness (cell identified by object identity of the returned point): after every receive_reward every reachable cell's reward list must consist of exactly the identical reward terms the history credits it with (T-HOO: cell and ancestors; others: the cell; Zooming: the arm), counts equal list lengths, z3 proves mean = sum/len (VHCT: variance = max(population variance, 1e-3)), counts sum to the number of rounds, nothing holding evidence becomes unreachable; POO/GPO/PCT/VPCT through recording subclasses of the real learners (routing, score = mean, Times = count, validation score).",
+            "VROOM's crediting is checked in C13; GPO's long schedule in C09 with stub learners.", "§3 C04"),
+    "C05": ("After every round of T-HOO/HCT/VHCT under every reward history (bounded) z3 proves: stored U of every cell = published formula recomputed from the ledger (admissible refresh epochs of delta~ at powers of two), stored B = U at leaves and min(U, max child B) elsewhere, unvisited cells infinite; at every pull the path from the root goes to a child whose B is >= every sibling's and stops at a leaf (T-HOO) / at the first leaf-or-below-threshold cell (HCT, VHCT thresholds re-derived from the ledger).",
+            "Parameter grid in evidence; c1*delta <= 1/2; ties may be broken either way; epochs at power-of-two rounds admitted both ways (DESIGN §5a).", "§3 C05"),
+    "C06": ("Same exploration with make_children wrapped per instance: per round at most one expansion, under the pulled cell, only of a leaf, in the reward phase, new cells with zero pulls and infinite U/B; T-HOO expands iff depth <= ceil((ln n/2 - ln(1/nu))/ln(1/rho)) and the tree never exceeds bound+1; HCT/VHCT expand iff leaf and T >= tau (both directions, thresholds from the reference; VHCT's variance-dependent threshold decided by z3 in QF_NRA).",
+            "For T-HOO and HCT thresholds and counts are concrete on a path, so the rule itself is evaluated concretely on each of the symbolically enumerated paths; the solver decides which paths exist.", "§3 C06"),
 }
 
 NOT_YET = {}
